@@ -247,6 +247,14 @@ def newer_residue_publish_cases(ctx):
                 g.write_share(cur[kk], snap2[kk])
             pre = [(sh.server, sh.shnum) + share_version(g, sh) for sh in g.find_shares(node.get_uri())]
             premax = max(p_[2] for p_ in pre)
+            if i % 2 == 1:
+                # the servers that hold the newer residue answer the operation's FIRST read and fail every later one: what the
+                # first survey of the operation saw must still count when the same map is surveyed again (modify and update
+                # survey twice; so do the retry loops)
+                flaky = sorted(set(p_[0] for p_ in pre if p_[2] == premax))
+                case["residue_servers_fail_after_first_read"] = flaky
+                g.set_faults([{"server": srv_, "method": "slot_readv", "nth": 1, "count": None, "action": "error"} for srv_ in flaky] +
+                             [{"server": srv_, "method": "slot_testv_and_readv_and_writev", "nth": 0, "count": None, "action": "error"} for srv_ in flaky])
 
             @defer.inlineCallbacks
             def publish():
@@ -258,9 +266,10 @@ def newer_residue_publish_cases(ctx):
                     mv = yield node.get_best_mutable_version()
                     yield mv.update(MutableData(b"UPD"), r.choice([0, 5, 17]))
             out = g.run(publish(), outcome=True)
+            g.set_faults([])
             post = [(sh.server, sh.shnum) + share_version(g, sh) for sh in g.find_shares(node.get_uri())]
             newvers = set((p_[2], p_[3]) for p_ in post) - set((p_[2], p_[3]) for p_ in pre)
-            ctx.case((seed, "residue", how, fmt), kind="grid-publish-over-newer-residue:" + how)
+            ctx.case((seed, "residue", how, fmt, i % 2), kind="grid-publish-over-newer-residue:" + how + (":flaky" if i % 2 else ""))
             if out.status != "ok":
                 ctx.count("residue-publish-not-ok:%s:%s" % (how, out.error))
                 continue
